@@ -41,6 +41,8 @@ type Resp struct {
 	// PartialStatus > 0: requests for PARTIAL tiles (path contains ".p/") get this status and no body, while
 	// full tiles get Body (a server that dropped its partial tiles and serves damaged full ones)
 	PartialStatus int
+	// ContentLength != 0: what the response DECLARES (http.Response.ContentLength), whatever the body really is
+	ContentLength int64
 }
 
 // Case is one hostile-response scenario.
@@ -124,7 +126,11 @@ func (s server) RoundTrip(q *http.Request) (*http.Response, error) {
 	if st == 0 {
 		st = 200
 	}
-	return &http.Response{StatusCode: st, Status: fmt.Sprintf("%d x", st), Header: h, Body: io.NopCloser(bytes.NewReader(body)), Request: q}, nil
+	cl := int64(len(body))
+	if r.ContentLength != 0 {
+		cl = r.ContentLength
+	}
+	return &http.Response{StatusCode: st, Status: fmt.Sprintf("%d x", st), Header: h, Body: io.NopCloser(bytes.NewReader(body)), ContentLength: cl, Request: q}, nil
 }
 
 func main() {
